@@ -436,7 +436,7 @@ func buildSandbox(root string) error {
 }
 
 // judgeC03 runs one script. root is "/" inside the chroot child.
-func judgeC03(root string, c c03Case) (string, string) {
+func judgeC03Raw(root string, c c03Case) (string, string) {
 	dest := filepath.Join(root, "p1/p2/dest")
 	if fi, err := os.Lstat(dest); err != nil || !fi.IsDir() {
 		// an earlier case left the destination path missing or as a link: start from a directory again
@@ -1124,4 +1124,14 @@ func lineDiff(a, b string) string {
 		}
 	}
 	return strings.Join(out, " | ")
+}
+
+// judgeC03 is judgeC03Raw with a panic of the code under test turned into a verdict.
+func judgeC03(root string, c c03Case) (k, m string) {
+	defer func() {
+		if r := recover(); r != nil {
+			k, m = "panic", fmt.Sprintf("the code under test panicked: %v", r)
+		}
+	}()
+	return judgeC03Raw(root, c)
 }
